@@ -1,4 +1,4 @@
-import Scfg.Props.C01Frame
+import Scfg.Props.C01Wrap
 import Scfg.Props.C14Join
 /-!
 # C14 / C01 — routing arcs through an inserted block leaves every path unchanged (a priori)
@@ -20,11 +20,16 @@ open Scfg Scfg.C01 Scfg.C04
 /-- undo the insertion on a target name -/
 def unsplice (new s : Name) (x : Name) : Name := if x == new then s else x
 
-/-- `b'` is `b` with some targets `s` replaced by `new`; only plain blocks may differ -/
+/-- `b'` is `b` with some targets `s` replaced by `new`, in the successor tuple and (for a block that
+    branches on a variable) in its value table, consistently -/
 structure SameUpTo (new s : Name) (b b' : Blk) : Prop where
-  fields : b' = { b with jts := b'.jts }
+  fields : b' = { b with jts := b'.jts, tbl := b'.tbl }
   targets : b'.jts.map (unsplice new s) = b.jts
-  plain : b'.jts ≠ b.jts → b.isRegion = false ∧ b.kind.isBranching = false
+  /-- the tables send every value to the same place (their order is free) -/
+  tbl : ∀ x : Int, (b.tbl.find? (fun p => p.1 == x)).map (·.2) =
+    ((b'.tbl.find? (fun p => p.1 == x)).map (·.2)).map (unsplice new s)
+  /-- a block that branches on a variable does not hold both names -/
+  inj : b.kind.isBranching = true → ∀ x ∈ b'.jts, ∀ y ∈ b'.jts, unsplice new s x = unsplice new s y → x = y
 
 structure Spliced (H H' : Hier) (new s : Name) : Prop where
   sNe : s ≠ new
@@ -33,17 +38,16 @@ structure Spliced (H H' : Hier) (new s : Name) : Prop where
   rel : ∀ n, n ≠ new → (H.get? n = none ∧ H'.get? n = none) ∨
     ∃ b b', H.get? n = some b ∧ H'.get? n = some b' ∧ SameUpTo new s b b'
   hdrFresh : ∀ n b, H.get? n = some b → b.header ≠ new
-  nameOf : ∀ n b', H'.get? n = some b' → b'.name = n
 
 theorem sameUpTo_basic {new s : Name} {b b' : Blk} (h : SameUpTo new s b b') :
     b'.name = b.name ∧ b'.kind = b.kind ∧ b'.isRegion = b.isRegion ∧ b'.isOrig = b.isOrig ∧
-    b'.header = b.header ∧ b'.var = b.var ∧ b'.tbl = b.tbl ∧ b'.asg = b.asg ∧
+    b'.header = b.header ∧ b'.var = b.var ∧ b'.asg = b.asg ∧
     b'.jts.length = b.jts.length := by
   have hf := h.fields
   have hl : b'.jts.length = b.jts.length := by
     have := congrArg List.length h.targets
     simpa using this
-  refine ⟨by rw [hf], by rw [hf], by rw [hf]; rfl, by rw [hf]; rfl, by rw [hf], by rw [hf], by rw [hf],
+  refine ⟨by rw [hf], by rw [hf], by rw [hf]; rfl, by rw [hf]; rfl, by rw [hf], by rw [hf],
     by rw [hf], hl⟩
 
 /-- resolving a name other than `new` gives related blocks in the two hierarchies -/
@@ -65,50 +69,11 @@ theorem resolve_rel (H H' : Hier) (new s : Name) (hS : Spliced H H' new s) : ∀
       · simp only [hr, Bool.false_eq_true, if_false]
         exact Or.inr ⟨b, b', rfl, rfl, hsame⟩
 
-/-- executing a synthetic block gives the same outcome in both hierarchies -/
-theorem synthExec_rel {new s : Name} {b b' : Blk} (hsame : SameUpTo new s b b') (consume : Bool) (val : Val) :
-    (∃ e, synthExec consume b' val = .error e ∧ ∃ e', synthExec consume b val = .error e') ∨
-    (∃ r, synthExec consume b' val = .ok r ∧ synthExec consume b val = .ok r) := by
-  obtain ⟨hname, hkind, _, _, _, hvar, htbl, hasg, hlen⟩ := sameUpTo_basic hsame
-  by_cases hj : b'.jts = b.jts
-  · -- nothing changed
-    have : b' = b := by rw [hsame.fields, hj]
-    subst this
-    cases h : synthExec consume b' val with
-    | error e => exact Or.inl ⟨e, rfl, e, rfl⟩
-    | ok r => exact Or.inr ⟨r, rfl, rfl⟩
-  · obtain ⟨_, hbr⟩ := hsame.plain hj
-    have hbr' : b'.kind.isBranching = false := by rw [hkind]; exact hbr
-    simp only [synthExec, hbr, hbr', Bool.false_eq_true, if_false, hkind, hasg]
-    -- same shape of the successor tuple
-    cases hb : b.jts with
-    | nil =>
-      have : b'.jts = [] := by
-        have := hlen; rw [hb] at this; exact List.eq_nil_of_length_eq_zero (by simpa using this)
-      rw [this]
-      exact Or.inr ⟨_, rfl, rfl⟩
-    | cons t ts =>
-      cases ts with
-      | nil =>
-        have : ∃ t', b'.jts = [t'] := by
-          have := hlen; rw [hb] at this
-          match hb' : b'.jts, this with
-          | [t'], _ => exact ⟨t', rfl⟩
-          | [], h => simp at h
-          | _ :: _ :: _, h => simp at h
-        obtain ⟨t', ht'⟩ := this
-        rw [ht']
-        exact Or.inr ⟨_, rfl, rfl⟩
-      | cons t2 ts2 =>
-        have : ∃ a a2 r, b'.jts = a :: a2 :: r := by
-          have := hlen; rw [hb] at this
-          match hb' : b'.jts, this with
-          | a :: a2 :: r, _ => exact ⟨a, a2, r, rfl⟩
-          | [], h => simp at h
-          | [_], h => simp at h
-        obtain ⟨a, a2, r, hr⟩ := this
-        rw [hr, hname]
-        exact Or.inl ⟨_, rfl, _, rfl⟩
+/-- executing a synthetic block: what succeeds over `H'` succeeds with the same outcome over `H` -/
+theorem synthExec_rel {new s : Name} {b b' : Blk} (hsame : SameUpTo new s b b') (consume : Bool) (val : Val)
+    (res : Val × Option Nat) (hok : synthExec consume b' val = .ok res) : synthExec consume b val = .ok res := by
+  obtain ⟨hname, hkind, _, _, _, hvar, hasg, _⟩ := sameUpTo_basic hsame
+  exact synthExec_ren (unsplice new s) hname hkind hvar hasg hsame.targets hsame.tbl hsame.inj consume val res hok
 
 theorem unsplice_of_ne {new s x : Name} (h : x ≠ new) : unsplice new s x = x := by
   simp [unsplice, h]
@@ -147,14 +112,16 @@ theorem adv_rel (H H' : Hier) (new s : Name) (hS : Spliced H H' new s) (consume 
       · rw [h2] at h; subst h; simp [WState.isErr] at hr
       · rw [h2] at h
         rw [h1]
-        obtain ⟨hname, _, _, horig, _, _, _, _, _⟩ := sameUpTo_basic hsame
+        obtain ⟨hname, _, _, horig, _, _, _, _⟩ := sameUpTo_basic hsame
         simp only [horig, hname] at h ⊢
         by_cases ho : b.isOrig = true
         · simp only [ho, if_true] at h ⊢; exact h
         · simp only [ho] at h ⊢
-          rcases synthExec_rel hsame consume val with ⟨e, he, e', _⟩ | ⟨res, he, he'⟩
-          · rw [he] at h; subst h; simp [WState.isErr] at hr
-          · rw [he] at h
+          cases he : synthExec consume b' val with
+          | error e => rw [he] at h; subst h; simp [WState.isErr] at hr
+          | ok res =>
+            have he' := synthExec_rel hsame consume val res he
+            rw [he] at h
             rw [he']
             obtain ⟨val', oi⟩ := res
             cases oi with
@@ -208,7 +175,7 @@ theorem adv_result_notNew (H' : Hier) (new s : Name) (H : Hier) (hS : Spliced H 
                 · exact ihR _ _ h
                 · simp only [Option.some.injEq] at h; exact ⟨n, h ▸ hx⟩
           obtain ⟨m, hm⟩ := this R n b hr
-          have := hS.nameOf m b hm
+          have := (get?_mem H' m b hm).2
           rw [this]; exact hm
         rw [e, hg] at hb
         simp only [Option.some.injEq] at hb
@@ -242,7 +209,7 @@ theorem spliced_paths (H H' : Hier) (new s : Name) (hS : Spliced H H' new s) (co
     rcases hS.rel n hn with ⟨h1, h2⟩ | ⟨b, b', h1, h2, hsame⟩
     · refine ⟨by simp [sysF, obsOf, h1, h2], fun d hd => ?_⟩
       simp [sysF, obsOf, h2, Obs.arity] at hd
-    · obtain ⟨hname, _, _, _, _, _, _, _, hlen⟩ := sameUpTo_basic hsame
+    · obtain ⟨hname, _, _, _, _, _, _, hlen⟩ := sameUpTo_basic hsame
       -- one step from this state
       have hstep : ∀ d, (stepF H' consume R F b' val d).isErr = false →
           stepF H consume R F b val d = stepF H' consume R F b' val d := by
@@ -356,6 +323,16 @@ theorem newTargets_one (new s : Name) (b : Blk) (h : new ∉ b.jts) :
       simp only [hc, Bool.not_false, if_true]
       exact map_unsplice_set new s b.jts i hi hx h
 
+/-- a table that does not mention `new` is its own un-spliced table -/
+theorem tbl_fresh (new s : Name) (t : List (Int × Name)) (h : ∀ p ∈ t, p.2 ≠ new) (x : Int) :
+    (t.find? (fun p => p.1 == x)).map (·.2) =
+    ((t.find? (fun p => p.1 == x)).map (·.2)).map (unsplice new s) := by
+  cases hf : t.find? (fun p => p.1 == x) with
+  | none => rfl
+  | some p =>
+    simp only [Option.map_some]
+    rw [unsplice_of_ne (h p (List.mem_of_find?_eq_some hf))]
+
 open Scfg.Model in
 /-- **`insert_block` with one successor splices.** -/
 theorem insertBlock_spliced (H H' : Hier) (c : Name) (kind : BKind) (new s : Name) (preds : List Name)
@@ -363,7 +340,7 @@ theorem insertBlock_spliced (H H' : Hier) (c : Name) (kind : BKind) (new s : Nam
     (hk1 : kind.isRegion = false) (hk2 : kind.isOrig = false) (hk3 : kind.isBranching = false)
     (hk4 : kind ≠ .synthAssign) (hnd : preds.Nodup)
     (hplain : ∀ p ∈ preds, ∃ b, H.getIn? c p = some b ∧ b.isRegion = false ∧ b.kind.isBranching = false)
-    (hhdr : ∀ b ∈ H, b.header ≠ new) (hjt : ∀ b ∈ H, new ∉ b.jts)
+    (hhdr : ∀ b ∈ H, b.header ≠ new) (hjt : ∀ b ∈ H, new ∉ b.jts) (htb : ∀ b ∈ H, ∀ p ∈ b.tbl, p.2 ≠ new)
     (h : insertBlock H c kind new preds [s] = .ok H') : Spliced H H' new s := by
   have hpne : ∀ p ∈ preds, p ≠ new := by
     intro p hp e
@@ -374,7 +351,7 @@ theorem insertBlock_spliced (H H' : Hier) (c : Name) (kind : BKind) (new s : Nam
     (fun p hp => ⟨hpne p hp, hplain p hp⟩) h
   have hget' : ∀ c' n x, H'.getIn? c' n = some x → H'.get? n = some x :=
     fun c' n x hx => getIn?_eq_get? H' c' n x hu' hx
-  refine ⟨hs, ?_, ?_, ?_, ?_⟩
+  refine ⟨hs, ?_, ?_, ?_⟩
   · -- the inserted block
     refine ⟨{ cont := c, name := new, kind := kind, jts := [s] }, ?_, ?_, ?_, hk3, hk4, rfl⟩
     · apply hget' c
@@ -414,18 +391,21 @@ theorem insertBlock_spliced (H H' : Hier) (c : Name) (kind : BKind) (new s : Nam
       simp only [hk, if_false, hbi] at hl
       by_cases hp : b.cont = c ∧ n ∈ preds
       · simp only [hp, and_self, if_true] at hl
-        refine ⟨b, _, rfl, hget' _ _ _ hl, ⟨by rw [show c = b.cont from hp.1.symm], newTargets_one new s b (hjt b hbm), fun _ => ?_⟩⟩
+        refine ⟨b, _, rfl, hget' _ _ _ hl, ⟨by rw [show c = b.cont from hp.1.symm], newTargets_one new s b (hjt b hbm),
+          tbl_fresh new s b.tbl (htb b hbm), fun hbr => ?_⟩⟩
         obtain ⟨b0, hb0, h1, h2⟩ := hplain n hp.2
         rw [← hp.1, hbi] at hb0
         simp only [Option.some.injEq] at hb0
         subst hb0
-        exact ⟨h1, h2⟩
+        rw [h2] at hbr; cases hbr
       · simp only [hp, if_false] at hl
-        exact ⟨b, b, rfl, hget' _ _ _ hl, ⟨rfl, map_unsplice_id new s _ (hjt b hbm), fun hne => absurd rfl hne⟩⟩
+        refine ⟨b, b, rfl, hget' _ _ _ hl, ⟨rfl, map_unsplice_id new s _ (hjt b hbm), tbl_fresh new s b.tbl (htb b hbm),
+          fun _ x hx y hy hxy => ?_⟩⟩
+        have hx' : x ≠ new := fun e => hjt b hbm (e ▸ hx)
+        have hy' : y ≠ new := fun e => hjt b hbm (e ▸ hy)
+        rwa [unsplice_of_ne hx', unsplice_of_ne hy'] at hxy
   · intro n b hg
     exact hhdr b (get?_mem H n b hg).1
-  · intro n b' hg
-    exact (get?_mem H' n b' hg).2
 
 open Scfg.Model in
 /-- **`insert_block` with one successor and plain predecessors leaves every path unchanged** (model;
@@ -435,12 +415,55 @@ theorem insertBlock_preserves_paths (H H' : Hier) (c : Name) (kind : BKind) (new
     (hk1 : kind.isRegion = false) (hk2 : kind.isOrig = false) (hk3 : kind.isBranching = false)
     (hk4 : kind ≠ .synthAssign) (hnd : preds.Nodup)
     (hplain : ∀ p ∈ preds, ∃ b, H.getIn? c p = some b ∧ b.isRegion = false ∧ b.kind.isBranching = false)
-    (hhdr : ∀ b ∈ H, b.header ≠ new) (hjt : ∀ b ∈ H, new ∉ b.jts)
+    (hhdr : ∀ b ∈ H, b.header ≠ new) (hjt : ∀ b ∈ H, new ∉ b.jts) (htb : ∀ b ∈ H, ∀ p ∈ b.tbl, p.2 ≠ new)
     (h : insertBlock H c kind new preds [s] = .ok H') (consume : Bool) (R F : Nat) :
     ∀ (ds : List Nat) (st : WState), NotNew new st → CleanRun (sysF H' consume R F) st →
       run (sysF H consume R F) st ds = run (sysF H' consume R F) st ds :=
   spliced_paths H H' new s
-    (insertBlock_spliced H H' c kind new s preds hu hu' hnew hs hk1 hk2 hk3 hk4 hnd hplain hhdr hjt h)
+    (insertBlock_spliced H H' c kind new s preds hu hu' hnew hs hk1 hk2 hk3 hk4 hnd hplain hhdr hjt htb h)
     consume R F
+
+/-! ## The decidable relation the harness evaluates on real `insert_block` steps -/
+
+open Scfg.Spec in
+theorem sameUpToB_sound (new s : Name) (b b' : Blk) (h : sameUpToB new s b b' = true) : SameUpTo new s b b' := by
+  simp only [sameUpToB, Bool.and_eq_true, beq_iff_eq, Bool.or_eq_true, Bool.not_eq_true'] at h
+  obtain ⟨⟨⟨h1, h2⟩, h3⟩, h4⟩ := h
+  refine ⟨h1, h2, Scfg.C01.tblRelB_sound _ _ _ h3, fun hbr x hx y hy hxy => ?_⟩
+  rcases h4 with e | e
+  · rw [hbr] at e; cases e
+  · simp only [injOn, List.all_eq_true, Bool.or_eq_true, bne_iff_ne, ne_eq, beq_iff_eq] at e
+    rcases e x hx y hy with e' | e'
+    · exact absurd hxy e'
+    · exact e'
+
+open Scfg.Spec in
+/-- **Soundness of the step check.** -/
+theorem splicedB_sound (H H' : Hier) (new s : Name) (h : splicedB H H' new s = true) : Spliced H H' new s := by
+  simp only [splicedB, Bool.and_eq_true, bne_iff_ne, ne_eq] at h
+  obtain ⟨⟨⟨h1, h2⟩, h3⟩, h4⟩ := h
+  refine ⟨h1, ?_, ?_, ?_⟩
+  · cases hg : H'.get? new with
+    | none => simp [hg] at h2
+    | some nb =>
+      simp only [hg, Bool.and_eq_true, Bool.not_eq_true', bne_iff_ne, ne_eq, beq_iff_eq] at h2
+      obtain ⟨⟨⟨⟨a1, a2⟩, a3⟩, a4⟩, a5⟩ := h2
+      exact ⟨nb, rfl, a1, a2, a3, a4, a5⟩
+  · intro n hn
+    by_cases hmem : n ∈ H.names ++ H'.names
+    · have := List.all_eq_true.mp h3 n hmem
+      simp only [Bool.or_eq_true, beq_iff_eq] at this
+      rcases this with e | e
+      · exact absurd e hn
+      · cases hg : H.get? n <;> cases hg' : H'.get? n <;> simp only [hg, hg'] at e
+        · exact Or.inl ⟨rfl, rfl⟩
+        · cases e
+        · cases e
+        · exact Or.inr ⟨_, _, rfl, rfl, sameUpToB_sound new s _ _ e⟩
+    · simp only [List.mem_append, not_or] at hmem
+      exact Or.inl ⟨Scfg.C01.get?_none_of_not_mem H n hmem.1, Scfg.C01.get?_none_of_not_mem H' n hmem.2⟩
+  · intro n b hg
+    have := List.all_eq_true.mp h4 b (get?_mem H n b hg).1
+    simpa using this
 
 end Scfg.C14
